@@ -241,8 +241,6 @@ def main():
             rows.append({"id": case["id"], "runner_error": type(e).__name__ + ": " + str(e)[:300]})
         finally:
             CL.PeriodicFinder = RealFinder
-    print(json.dumps({"rows": rows, "ext": EXT_MODE}))
-
-
+    print(json.dumps({"rows": rows, "ext": EXT_MODE}, default=__import__("_util").jdefault))
 if __name__ == "__main__":
     main()
